@@ -413,6 +413,10 @@ def cases(tier, seed):
                 (ren if tier != 'quick' else ren[:1])
         elif tier == 'quick' and g == 2:
             grp['presentations'] = pres[:2] + [('rename-h-file', {'hstyle': 'pdb-rotation'})]
+        elif tier == 'quick' and g == 3:
+            # a deposited structure with CONECT records between chains (disulfide bridges of insulin), its atom records reversed
+            grp.update({'pdb': T1 + '3i40/3i40.pdb', 'options': ['-ff', 'martini3001', '-elastic', '-p', 'backbone'],
+                        'presentations': [('reverse-file', {}), ('hashseed', {})]})
         out.append(grp)
     return out
 
